@@ -978,6 +978,139 @@ fn(MultiTierCache, "delete", args={"key": Str}, setup=_one_tier, uses=MT_USES + 
     ("completed-delete-not-shadowed-by-a-tier1-entry", lambda s: Not(has(s.t1._cache, s.key))),
     ("tiers-keep-their-invariants", lambda s: _tier_inv(s, s.t0) & _tier_inv(s, s.t1))])
 
+# ---- get / put: generators over the tier generators.  CachedStore.get / CachedStore.put run inlined (their own
+# helpers and the KVStore API through the contracts of part B), so every yield of a tier operation is a yield of
+# the multi-tier operation: the tier invariants (capacity, tracked == keys, dirty subset) are obligations there.
+import pyvc.ctx as _pctx  # noqa: E402
+
+
+_FEAS_SAVED = []
+
+
+def _cheap_feasibility(setup, divisor=12):
+    """setup wrapper for tasks with several CachedStore objects in focus: the branch-feasibility queries (sat
+    checks over two capacity-bounded maps + instantiated guarantees) run into the deterministic budget and answer
+    `unknown` after seconds each; `unknown` keeps the path (sound), so a smaller budget only saves the waiting.
+    The obligation budget is cut to 1/8 as well: every obligation of these tasks is proved within a fraction of it
+    on the unchanged tree (a proof that needs more becomes UNDECIDED, never a pass); what it bounds is the second
+    stage of a FAILING obligation (search for a model of the quantified facts, which z3 gives up on after the whole
+    budget), so that a broken tree yields VIOLATION lines instead of a task timeout.
+    _restore_feasibility (teardown) undoes both after every path."""
+    def wrapped(s):
+        _FEAS_SAVED.append((_pctx.FEAS_RLIMIT, _pctx.OB_RLIMIT))
+        _pctx.FEAS_RLIMIT = max(100000, _pctx.FEAS_RLIMIT // divisor)
+        _pctx.OB_RLIMIT = max(1000000, _pctx.OB_RLIMIT // 8)
+        _pctx.cur().solver.set("rlimit", _pctx.FEAS_RLIMIT)
+        return setup(s)
+    return wrapped
+
+
+def _restore_feasibility(s):
+    if _FEAS_SAVED:
+        _pctx.FEAS_RLIMIT, _pctx.OB_RLIMIT = _FEAS_SAVED.pop()
+
+
+def _nth_yield():
+    """number of yields on the current path, the current one included (clause helper)"""
+    return len([x for x in _pctx.cur().sig if x[0] == "yield"])
+
+
+def _tier_kept(s, t):
+    """no entry of tier t that exists at the start of the final segment is overwritten"""
+    pre = s.pre(t)
+    return forall(Str, lambda j: implies(has(pre._cache, j) & has(t._cache, j),
+                                         mk_bool(mval(t._cache, j) == mval(pre._cache, j))))
+
+
+def _mt_get_result(s):
+    """a key held by a tier when get() is called is served from the FASTEST tier holding it; otherwise the value
+    the backing store holds when the fetch completes"""
+    o0, o1 = s.old(s.t0), s.old(s.t1)
+    if o0._cache.__contains__(s.key):
+        return (s.result is not None) and mk_bool(s.result.t == mval(o0._cache, s.key))
+    if o1._cache.__contains__(s.key):
+        return (s.result is not None) and mk_bool(s.result.t == mval(o1._cache, s.key))
+    b = s.pre(s.self._backing_store)
+    if b._data.__contains__(s.key):
+        return (s.result is not None) and mk_bool(s.result.t == mval(b._data, s.key))
+    return s.result is None
+
+
+def _mt_focus(s):
+    return [s.self._backing_store]
+
+
+MT_UNBOUNDED = ("backing-store-unbounded", lambda s: s.self._backing_store._capacity is None)
+MT_GEN_USES = MT_USES + KV_API
+MT_AT_YIELD = [
+    ("delay-nonnegative", lambda s, y: y >= 0),
+    ("tiers-keep-their-invariants", lambda s, y: _tier_inv(s, s.t0) & _tier_inv(s, s.t1)),
+    ("tier0-dirty-only-leaves-written", lambda s, y: _written_back(s.pre(s.t0), s.t0)),
+    ("tier1-dirty-only-leaves-written", lambda s, y: _written_back(s.pre(s.t1), s.t1)),
+]
+
+fn(MultiTierCache, "get", args={"key": Str}, setup=_cheap_feasibility(_two_tiers), teardown=_restore_feasibility,
+   uses=MT_GEN_USES + [(MultiTierCache, "_should_promote")],
+   focus=_mt_focus, requires=[MT_UNBOUNDED],
+   yields=Yields(at_yield=MT_AT_YIELD, stable=[("Entity", "_clock")]),
+   ensures=[
+    ("served-from-fastest-tier-else-current-backing-value", _mt_get_result),
+    # a read never replaces a tier entry: what a concurrent write put there while the read was in flight is newer
+    ("fill-never-overwrites-a-tier0-entry", lambda s: _tier_kept(s, s.t0)),
+    ("fill-never-overwrites-a-tier1-entry", lambda s: _tier_kept(s, s.t1)),
+    ("whatever-enters-tier0-is-the-returned-value", lambda s: implies(
+        has(s.t0._cache, s.key) & Not(has(s.pre(s.t0)._cache, s.key)),
+        (s.result is not None) and mk_bool(mval(s.t0._cache, s.key) == s.result.t))),
+    ("miss-fill-is-the-current-backing-value", lambda s: implies(
+        Not(has(s.old(s.t0)._cache, s.key)) & Not(has(s.old(s.t1)._cache, s.key))
+        & has(s.t0._cache, s.key) & Not(has(s.pre(s.t0)._cache, s.key)),
+        has(s.self._backing_store._data, s.key)
+        & mk_bool(mval(s.t0._cache, s.key) == mval(s.self._backing_store._data, s.key)))),
+    ("a-read-only-adds-to-tier0", lambda s: mk_bool(z3.IsSubset(sdom(s.t1._cache), sdom(s.pre(s.t1)._cache)))),
+    ("tiers-keep-their-invariants", lambda s: _tier_inv(s, s.t0) & _tier_inv(s, s.t1)),
+    ("tier0-dirty-only-leaves-written", lambda s: _written_back(s.pre(s.t0), s.t0)),
+    ("tier1-dirty-only-leaves-written", lambda s: _written_back(s.pre(s.t1), s.t1)),
+])
+
+
+def _mt_put_visible(s, y):
+    """from the moment the backing-store write has completed (every yield after the first): the value is in the
+    backing store and in tier 0 and no lower tier holds an older entry for the key"""
+    if _nth_yield() < 2:
+        return True
+    b = s.self._backing_store
+    # (a tier entry of the key that is dirty when the store write completes is an unflushed write-back write: the
+    # tier's invalidate writes it back first - CachedStore.invalidate - and tier 0 then holds the new value dirty)
+    no_dirty = Not(has(s.pre(s.t0)._dirty_keys, s.key)) & Not(has(s.pre(s.t1)._dirty_keys, s.key))
+    return (implies(no_dirty, has(b._data, s.key) & mk_bool(mval(b._data, s.key) == s.value.t))
+            & has(s.t0._cache, s.key) & mk_bool(mval(s.t0._cache, s.key) == s.value.t)
+            & Not(has(s.t1._cache, s.key)))
+
+
+fn(MultiTierCache, "put", args={"key": Str, "value": Any}, setup=_cheap_feasibility(_two_tiers),
+   teardown=_restore_feasibility, uses=MT_GEN_USES,
+   focus=_mt_focus, requires=[MT_UNBOUNDED],
+   yields=Yields(at_yield=MT_AT_YIELD + [
+       ("no-tier-write-before-the-backing-store-write-completed", lambda s, y: True if _nth_yield() >= 2 else
+           unchanged(s, s.t0, "_cache", "_dirty_keys") & unchanged(s, s.t1, "_cache", "_dirty_keys")),
+       ("written-value-in-store-and-tier0-and-no-stale-lower-tier-entry", _mt_put_visible),
+       ("write-back-tier0-marks-dirty", lambda s, y: True if _nth_yield() < 2 else implies(
+           Not(s.t0._write_through), has(s.t0._dirty_keys, s.key)))],
+       stable=[("Entity", "_clock")]),
+   ensures=[
+    # read-after-write through tier 0: after the completed put tier 0 holds nothing else for the key unless a later
+    # write to the key started on it (ticket of CachedStore.put/delete)
+    ("completed-write-not-shadowed-by-stale-tier0-entry", lambda s: implies(
+        s.t0._write_through & (s.t0.g_writes.get(s.key, 0) == s.old(s.t0).g_writes.get(s.key, 0) + 1)
+        & has(s.t0._cache, s.key), mk_bool(mval(s.t0._cache, s.key) == s.value.t))),
+    ("write-through-tier0-makes-durable-in-its-store", lambda s: implies(
+        s.t0._write_through, has(s.t0._backing_store._data, s.key)
+        & mk_bool(mval(s.t0._backing_store._data, s.key) == s.value.t))),
+    ("tiers-keep-their-invariants", lambda s: _tier_inv(s, s.t0) & _tier_inv(s, s.t1)),
+    ("tier0-dirty-only-leaves-written", lambda s: _written_back(s.pre(s.t0), s.t0)),
+    ("tier1-dirty-only-leaves-written", lambda s: _written_back(s.pre(s.t1), s.t1)),
+])
+
 # ============================================================================ E. write policies
 cls(WriteThrough, fields={})
 cls(WriteBack, fields={"_flush_interval": Real, "_max_dirty": Int, "_dirty_keys": SSET, "_last_flush_time": Real},
